@@ -54,6 +54,7 @@ type runResult struct {
 	upTable  []string
 	dnTable  []string
 	chunked  bool
+	online   bool // online-mode proxy: the client connection is encrypted (AES/CFB8)
 }
 
 var thresholds = []int{-1, 0, 64, 256}
@@ -122,11 +123,15 @@ func genBody(r *lib.Rng, n int) []byte {
 	return r.Bytes(n)
 }
 
-func genStream(r *lib.Rng, v e2eb.Version, dir proto.Direction, ta, tb int, unknown []int, fwd map[string]int, dropID int) (ps [][]byte, kinds []string) {
+func genStream(r *lib.Rng, v e2eb.Version, dir proto.Direction, ta, tb int, unknown []int, fwd map[string]int, dropID int, big bool) (ps [][]byte, kinds []string) {
 	n := r.Range(50, 200)
 	for i := 0; i < n; i++ {
 		x := r.Intn(100)
 		switch {
+		case big && x >= 85: // frames that never fit one read of the proxy's 4 KiB bufio reader
+			id := unknown[r.Intn(len(unknown))]
+			ps = append(ps, e2eb.MakePayload(id, genBody(r, r.Range(8192, 40*1024))))
+			kinds = append(kinds, "unknown")
 		case dir == proto.ClientBound && x < 6 && has(fwd, "packet.KeepAlive"):
 			id := int64(r.Intn(1<<30)) * 2 // even ids: never equal to a serverbound one
 			ps = append(ps, e2eb.MustBuild(state.Play, dir, v.Protocol, &packet.KeepAlive{RandomID: id}))
@@ -187,13 +192,17 @@ func oneRun(run int, seed uint64) (res runResult) {
 	res.tc = thresholds[r.Intn(4)]
 	res.ts = thresholds[r.Intn(4)]
 	res.chunked = r.Chance(2, 3)
+	res.online = run%4 == 3
+	if res.online {
+		res.chunked = true
+	}
 	v := res.ver
 	upT, upUnknown, _, dropID := table(proto.ServerBound, v.Protocol)
 	dnT, dnUnknown, dnFwd, _ := table(proto.ClientBound, v.Protocol)
 	res.upTable, res.dnTable = upT, dnT
 	// thresholds as seen by each direction: sending side first
-	res.up.sent, res.up.kinds = genStream(r.Fork(), v, proto.ServerBound, res.tc, res.ts, upUnknown, nil, dropID)
-	res.down.sent, res.down.kinds = genStream(r.Fork(), v, proto.ClientBound, res.ts, res.tc, dnUnknown, dnFwd, -1)
+	res.up.sent, res.up.kinds = genStream(r.Fork(), v, proto.ServerBound, res.tc, res.ts, upUnknown, nil, dropID, res.online)
+	res.down.sent, res.down.kinds = genStream(r.Fork(), v, proto.ClientBound, res.ts, res.tc, dnUnknown, dnFwd, -1, res.online)
 	chunkUp, chunkDown := r.Fork(), r.Fork()
 
 	be, err := e2eb.NewBackend("alpha", func(int) e2eb.Script { return e2eb.Script{Do: e2eb.Accept, Threshold: res.ts} })
@@ -202,7 +211,7 @@ func oneRun(run int, seed uint64) (res runResult) {
 		return
 	}
 	defer be.Close()
-	px, err := e2eb.StartProxy(e2eb.ProxyOpts{ClientThreshold: res.tc, Try: []string{"alpha"}, ConnectionTimeoutMs: 20000})
+	px, err := e2eb.StartProxy(e2eb.ProxyOpts{ClientThreshold: res.tc, Try: []string{"alpha"}, ConnectionTimeoutMs: 60000, Online: res.online})
 	if err != nil {
 		res.setupErr = "proxy: " + err.Error()
 		return
@@ -223,8 +232,12 @@ func oneRun(run int, seed uint64) (res runResult) {
 		res.setupErr = "login: " + err.Error()
 		return
 	}
-	if !cl.WaitJoins(1, 20*time.Second) {
+	if !cl.WaitJoins(1, 60*time.Second) {
 		res.setupErr = fmt.Sprintf("no JoinGame (closed=%v)", cl.IsClosed())
+		return
+	}
+	if cl.Encrypted() != res.online {
+		res.setupErr = fmt.Sprintf("encryption exchange: got %v, want %v", cl.Encrypted(), res.online)
 		return
 	}
 	if cl.Threshold() != res.tc && !(res.tc < 0 && cl.Threshold() < 0) {
@@ -634,7 +647,7 @@ func main() {
 	rng := lib.NewRng(f.Seed)
 	out := lib.NewOut("C15", f)
 	out.Imports = "From Verif Require Import Model.Relay.\n"
-	out.Rule = "runs cycle through 8 client versions (1.8, 1.12.2, 1.16.5, 1.19.4, 1.20.1, 1.20.4, 1.21.1, 1.21.4); client-side and backend-side compression thresholds drawn independently from {-1,0,64,256}; per direction 50-200 packets: ids unknown to gate's Play registry for the version (1-3 byte VarInt ids), bodies random or repetitive with sizes 0-40, 41-300, threshold-3..threshold+2 of either side, 300-4096, 8-40 KiB; clientbound also KeepAlive and HeaderAndFooter built by gate's encoders (forwarded as-is), serverbound also unmatched KeepAlive replies (swallowed); both directions sent concurrently, in batches, 2/3 of the runs with the TCP writes cut at random byte positions; one case per direction; plus one long run in the same process (client threshold 256, backend threshold 64): 46,000 clientbound then 2,500 serverbound unknown-id packets, 88% just above the receiving side threshold, 9% below, 3% 2-20 KB, compared in Go on (index, length, SHA-256), two summary cases; non-trivial = at least one packet is compressed on exactly one of the two sides; distinct = distinct case term"
+	out.Rule = "runs cycle through 8 client versions (1.8, 1.12.2, 1.16.5, 1.19.4, 1.20.1, 1.20.4, 1.21.1, 1.21.4); client-side and backend-side compression thresholds drawn independently from {-1,0,64,256}; per direction 50-200 packets: ids unknown to gate's Play registry for the version (1-3 byte VarInt ids), bodies random or repetitive with sizes 0-40, 41-300, threshold-3..threshold+2 of either side, 300-4096, 8-40 KiB; clientbound also KeepAlive and HeaderAndFooter built by gate's encoders (forwarded as-is), serverbound also unmatched KeepAlive replies (swallowed); every 4th run against an online-mode proxy (real RSA + AES/CFB8 login with a scripted session server, so the client connection is encrypted) with 15% of the packets 8-40 KiB and always chunked writes; both directions sent concurrently, in batches, 2/3 of the runs with the TCP writes cut at random byte positions; one case per direction; plus one long run in the same process (client threshold 256, backend threshold 64): 46,000 clientbound then 2,500 serverbound unknown-id packets, 88% just above the receiving side threshold, 9% below, 3% 2-20 KB, compared in Go on (index, length, SHA-256), two summary cases; non-trivial = at least one packet is compressed on exactly one of the two sides; distinct = distinct case term"
 	runs := f.Count(16)
 	seeds := make([]uint64, runs)
 	for i := range seeds {
@@ -651,7 +664,11 @@ func main() {
 	wantRun := func(i int) bool { return f.Only < 0 || f.Only/2 == i }
 	go func() {
 		if wantRun(runs) {
-			longCh <- longRun(longSeed, nDown, nUp)
+			lr := longRun(longSeed, nDown, nUp)
+			for try := 0; try < 2 && lr.setupErr != ""; try++ {
+				lr = longRun(longSeed, nDown, nUp)
+			}
+			longCh <- lr
 		} else {
 			longCh <- longResult{skipped: true}
 		}
@@ -660,7 +677,13 @@ func main() {
 		if !wantRun(i) {
 			return runResult{skipped: true}
 		}
-		return oneRun(i, seeds[i])
+		// bringing the player to play can fail for reasons of machine load alone (gate gives a 1.20.2+
+		// client 3 s to acknowledge the configuration): the set-up is retried before it is reported
+		res := oneRun(i, seeds[i])
+		for try := 0; try < 2 && res.setupErr != ""; try++ {
+			res = oneRun(i, seeds[i])
+		}
+		return res
 	})
 	for i, res := range results {
 		if res.skipped {
@@ -726,7 +749,7 @@ func emit(out *lib.Out, run int, res runResult, up bool, d dirResult, tbl []stri
 	sort.Strings(kk)
 	desc := map[string]any{
 		"run": run, "version": res.ver.Name, "direction": dir, "threshold_sender_side": ta, "threshold_receiver_side": tb,
-		"chunked_writes": res.chunked, "sent": len(d.sent), "received": len(d.recv), "bytes": total, "kinds": strings.Join(kk, " "),
+		"chunked_writes": res.chunked, "client_connection_encrypted": res.online, "sent": len(d.sent), "received": len(d.recv), "bytes": total, "kinds": strings.Join(kk, " "),
 		"end_sentinel_arrived": d.complete, "first_difference_at": firstDiff(exp, d.recv), "note": d.note,
 	}
 	if fd := firstDiff(exp, d.recv); fd >= 0 {
@@ -739,7 +762,7 @@ func emit(out *lib.Out, run int, res runResult, up bool, d dirResult, tbl []stri
 			desc["received_head_at_diff"] = fmt.Sprintf("%x", head(d.recv[fd]))
 		}
 	}
-	out.Add(term, desc, nt, "version="+res.ver.Name, "dir="+dir, fmt.Sprintf("ta=%d,tb=%d", ta, tb), fmt.Sprintf("chunked=%v", res.chunked))
+	out.Add(term, desc, nt, "version="+res.ver.Name, "dir="+dir, fmt.Sprintf("ta=%d,tb=%d", ta, tb), fmt.Sprintf("chunked=%v", res.chunked), fmt.Sprintf("encrypted-client=%v", res.online))
 	for k, n := range kc {
 		for j := 0; j < n; j++ {
 			out.Tag("packets:" + k)
